@@ -17,6 +17,9 @@ def parseOp (l : Line) : Option Op :=
   | "size", [] => some .size
   | "keys", [] => some .keys
   | "startswith", [k] => k.bytes?.map .startsWith
+  -- the caller reads only the first k keys of the result and leaves the rest in the trie's result queue
+  | "keyspart", [.int _] => some .keys
+  | "startswithpart", [.int _, k] => k.bytes?.map .startsWith
   | "longestprefix", [k] => k.bytes?.map .longestPrefix
   | _, _ => none
 
@@ -30,6 +33,18 @@ def renderOut : Out → List Val
   | .int n => [.int n]
   | .keyList l e => [.list (l.map Val.ofBytes), errAtom e]
   | .key k e => [Val.ofBytes k, errAtom e]
+
+/-- how many keys of the result the caller reads (`keyspart k`, `startswithpart k p`); `none`: all -/
+def cutOf (l : Line) : Option Nat :=
+  match l.op, l.args with
+  | "keyspart", [.int k] => some k.toNat
+  | "startswithpart", [.int k, _] => some k.toNat
+  | _, _ => none
+
+def renderCut (cut : Option Nat) (o : Out) : List Val :=
+  match cut, o with
+  | some k, .keyList l e => [.list ((l.take k).map Val.ofBytes), errAtom e]
+  | _, o => renderOut o
 
 structure St where
   m : List (Key × Int) := []
@@ -47,7 +62,7 @@ def kind : Kind where
       let (m', o) := Spec.C09.step st.m op
       -- the model's answer (`none` = the model predicts a Go panic; the case ends there)
       let (model', mo) := match Model.Trie.step st.model op with
-        | some (t', o) => (t', renderOut o)
+        | some (t', o) => (t', renderCut (cutOf l) o)
         | none => (st.model, [Val.atom "panic"])
       let nested := st.nested || m'.any (fun a => m'.any (fun b => a.1 != b.1 && isPrefix a.1 b.1))
       let st' : St := { m := m', model := model', nested := nested }
@@ -58,7 +73,7 @@ def kind : Kind where
           -- every answer of these calls is an observable the property names (Get/Contains/Size results,
           -- drained queue contents, LongestPrefix result, error flags); nothing of the layout is compared
           model := some mo
-          spec := if renderOut o == l.res then none else some s!"string-map:{l.op}" }
+          spec := if renderCut (cutOf l) o == l.res then none else some s!"string-map:{l.op}" }
 
 end Trie
 
